@@ -506,6 +506,8 @@ def child_build(hists_f, out_f, workdir):
     # etc. and start fast.  Nothing is ever scanned by Cython.Build.Dependencies in this process:
     # its memo tables are empty at every fork (asserted below) -- the state of a fresh interpreter.
     import distutils.extension  # noqa
+    import concurrent.futures.process  # noqa  (cythonize() imports it)
+    import gc
     from Cython.Compiler import Main
     wd = os.path.join(workdir, "warmup")
     os.makedirs(wd, exist_ok=True)
@@ -515,6 +517,8 @@ def child_build(hists_f, out_f, workdir):
         fh.write("def f_warm():\n    return 1\n")
     Main.compile_single(os.path.join(wd, "warm.pyx"), Main.CompilationOptions(Main.default_options), None)
     assert D._dep_tree is None and D.parse_dependencies.cache_info().currsize == 0
+    gc.collect()
+    gc.freeze()     # fewer copy-on-write faults in the forked workers
     n = nb = 0
     with open(hists_f) as f, open(out_f, "w") as out:
         for idx, line in enumerate(f):
